@@ -431,6 +431,19 @@ def rule_root_loop(ctx: Ctx, rule: str, which: set[str] | None = None) -> None:
          "fnmatch('a.b', 'a?b')... the segment-start state must be advanced after every token")
 
 
+def star_table(repo: Repo) -> list[Path]:
+    """Decision table of WcParse._handle_star (handlers explored, the duplicate-star loop skipped)."""
+    def build() -> list[Path]:
+        from ..symeval import Obj, SymEval
+        fi = repo.func(WP, 'WcParse._handle_star')
+        ev = SymEval(repo, inline=False, explore_handlers=True, loop_mode='skip', max_paths=20000)
+        params = [p for p in fi.params() if p != 'self']
+        if len(params) != 2:
+            raise AnalysisError('WcParse._handle_star: two parameters expected')
+        return ev.tabulate(fi, {params[0]: Opaque('i'), params[1]: Opaque('current')}, Obj((WP, 'WcParse'), {}))
+    return cached(repo, 'seqrules:star', build)
+
+
 def rule_star_epilogue(ctx: Ctx, rule: str) -> None:
     """WcParse._handle_star after reset_dir_track(): a globstar always re-arms the segment start, also when it is folded into a
     preceding globstar; a plain star is appended and does not."""
